@@ -1,6 +1,6 @@
 """C08 plugin.  pregen (tie T1): harness/cmd/c08/extract (go/ast, source text only) regenerates
 lean/GeomV/C08/Gen/GoProj.lean from the CURRENT proj/{common,datum,merc,lcc,aea,eqdc,tmerc,utm,krovak}.go and Gen/GoRoute.lean from
-proj/transform.go; the `rfl` lemmas of lean/GeomV/C08/{Ties,TiesCommon,TiesReal,TiesGuards,TiesRoute}.lean then re-check model = source
+proj/transform.go and Gen/GoAxis.lean from proj/adjust_axis.go; the `rfl` lemmas of lean/GeomV/C08/{Ties,TiesCommon,TiesReal,TiesGuards,TiesRoute,TiesAxis}.lean then re-check model = source
 for every arithmetic right-hand side, guard comparison (operands, operator, threshold), literal loop bound, integer iteration cap
 (tmerc max_iter, krovak iter < 15, Hannover maxiter) and the pipeline's route decision, record guards and compound assignments."""
 import os, subprocess, sys
@@ -65,7 +65,11 @@ def post(check, pairs, stats):
     check.cfg["explanation"] = ("generator matrix, rt lines (8 positions x 3 legs each) per projection x option this run: "
                                 + json.dumps(m, sort_keys=True))
     check.cfg["explanation"] += "; tw lines (lower-case wgs84 datum code against a 3-/7-parameter datum, compared bit for bit with the +datum=WGS84 twin): " + json.dumps(tw, sort_keys=True)
+    ncp = sum(1 for impl, _ in pairs if impl.split(" ", 2)[1:2] and "-cp" in impl.split(" ", 2)[1])
+    check.cfg["explanation"] += "; cp lines (close or nearly symmetric standard parallels: the stratum where the derived conditioning slack of the correspondence is exercised): %d" % ncp
     holes = []
+    if ncp < 100:
+        holes.append("close-parallels stratum: only %d lines" % ncp)
     # 30 = what the +datum=wgs84 (PROJ.4) spellings alone provide, so a change of the WKT reader (C20's subject) that makes
     # the WKT twins' records differ (class notwin-, not compared) does not break this obligation
     if tw["geoLower"] < 30 or tw["projLower"] < 30:
@@ -81,7 +85,7 @@ def post(check, pairs, stats):
 
 CFG = {
     "id": "C08",
-    "lean_modules": ["GeomV.C08.Proofs", "GeomV.C08.ProofsConic", "GeomV.C08.ProofsTmerc", "GeomV.C08.ProofsGeodetic", "GeomV.C08.ProofsKrovak", "GeomV.C08.ProofsUnique", "GeomV.C08.ProofsConverge", "GeomV.C08.ProofsHelmert", "GeomV.C08.ProofsPipeline", "GeomV.C08.ProofsMore", "GeomV.C08.Ties", "GeomV.C08.TiesCommon", "GeomV.C08.TiesReal", "GeomV.C08.TiesGuards", "GeomV.C08.TiesRoute"],
+    "lean_modules": ["GeomV.C08.Proofs", "GeomV.C08.ProofsConic", "GeomV.C08.ProofsTmerc", "GeomV.C08.ProofsGeodetic", "GeomV.C08.ProofsKrovak", "GeomV.C08.ProofsUnique", "GeomV.C08.ProofsConverge", "GeomV.C08.ProofsHelmert", "GeomV.C08.ProofsPipeline", "GeomV.C08.ProofsMore", "GeomV.C08.Ties", "GeomV.C08.TiesCommon", "GeomV.C08.TiesReal", "GeomV.C08.TiesGuards", "GeomV.C08.TiesRoute", "GeomV.C08.TiesAxis"],
     "pregen": pregen,
     "post": post,
     "exe": "geomv_c08",
@@ -132,10 +136,12 @@ CFG = {
                                   "guard_aeaPhi1zLoop", "guard_aeaPhi1z", "guard_invAea", "guard_invEqdc", "guard_tmercPhiLoop",
                                   "guard_krovakLatLoop", "guard_geodeticToGeocentric",
                                   # part 5 (TiesRoute): transform.go - checkNotWGS, the closure's route condition, transform3's guards and assignments
-                                  "tie_checkNotWGS", "tie_transform", "tie_transform3"]],
+                                  "tie_checkNotWGS", "tie_transform", "tie_transform3",
+                                  # part 6 (TiesAxis): adjust_axis.go - switch table, loop bound, skip condition, slots, statement count
+                                  "tie_axisSign", "tie_axis_shape", "tie_adjustAxis"]],
     "trusted_base": [
         "Lean 4.33.0 kernel; axioms of every theorem printed by #print axioms must be within {propext, Classical.choice, Quot.sound}; Mathlib v4.33 modules imported by RealInst/Lemmas/Proofs are checked by the same kernel",
-        "the generic model lean/GeomV/C08/{ProjCommon,ProjMerc,ProjLcc,ProjAea,ProjEqdc,ProjTmerc,ProjKrovak,ProjDatum,ProjPipeline}.lean is ONE definition per Go function; its Float instance is tied to /repo/proj by the correspondence run on every check (1e-9 relative on projected metres, 1e-12 rad on angles), its Real instance is what the theorems are about",
+        "the generic model lean/GeomV/C08/{ProjCommon,ProjMerc,ProjLcc,ProjAea,ProjEqdc,ProjTmerc,ProjKrovak,ProjDatum,ProjPipeline}.lean is ONE definition per Go function; its Float instance is tied to /repo/proj by the correspondence run on every check (1e-9 relative on projected metres, 3e-12 rad on angles; for the conics widened ONLY by the derived conditioning slack 4u*kappa*(1+1/|ns|) of the cone constant - kappa the relative condition of its two differences, aea latitude x14/cos(lat) - and the Newton straddle term of aeaPhi1z, Main.lean `Slack`: both stay below the base tolerance unless the standard parallels are closer than ~1 degree), its Real instance is what the theorems are about",
         "modelled, not verified: IEEE-754 rounding (the theorems are over the reals; rounding and series-truncation error is numeric evidence from the correspondence run), Go math vs C libm (Float instance)",
         "the *SR records are read right after proj.Parse through reflect (read-only, incl. unexported sphere/datum); projString/DeriveConstants/getDatum themselves are C09/C20 subjects and enter here as data",
         "harness/cmd/c08 + lean driver + lib/vcheck.py transport inputs faithfully",
@@ -150,7 +156,7 @@ CFG = {
             "over the usable region including its border (|dlon| = 3.5 deg for tmerc/utm, |lat| = 85 merc, cone-side latitudes, standard parallels, lat_0); one case = one definition pair with 8 positions, "
             "each run through A->B, B->A, A->B on ONE reused forward and ONE reused inverse transformer per line (plus a fresh-per-call control); "
             "plus WKT-defined systems (ESRI Mercator_Auxiliary_Sphere, and the testData PROJCS texts of the supported kinds); plus one `cl` line per parameterisation: the closure pair of "
-            "sr.Transformers() obtained once, 8 in-region positions, then rejected calls (poles, NaN, out of range), then the 8 positions again, against freshly obtained closures; plus `tw` lines (route decision of NewTransform): a reference whose datum code is the lower-case wgs84 (WKT GEOGCS/PROJCS on D_WGS_1984 / WGS_1984, or +datum=wgs84) against a reference on a 3-/7-parameter datum (named or +towgs84), tmerc/merc/lcc/aea/eqdc, each compared bit for bit on all three legs with its twin pair written with +datum=WGS84 (>= 30 compared lines per side per run, checked); plus `il` lines (state carried between DIFFERENT transformers): two projected systems with the same projection parameters on different built-in ellipsoids (or a UTM zone and a transverse Mercator on its central meridian), positions exactly on lat_0 / lat_1 / lat_2, the second system's three legs run alone and then in turn with the first one's on the same positions - judged by Spec and model, and compared bit for bit with the answers alone; plus `cc` lines (tmerc/lcc/aea/merc/longlat, fully specified, no datum shift: the definitions for which the unchanged tree is write-free per call under go -race): 8 goroutines share one transformer pair, every answer compared with the sequential one. distinct = distinct input line; non-trivial = every class",
+            "sr.Transformers() obtained once, 8 in-region positions, then rejected calls (poles, NaN, out of range), then the 8 positions again, against freshly obtained closures; plus `tw` lines (route decision of NewTransform): a reference whose datum code is the lower-case wgs84 (WKT GEOGCS/PROJCS on D_WGS_1984 / WGS_1984, or +datum=wgs84) against a reference on a 3-/7-parameter datum (named or +towgs84), tmerc/merc/lcc/aea/eqdc, each compared bit for bit on all three legs with its twin pair written with +datum=WGS84 (>= 30 compared lines per side per run, checked); plus `il` lines (state carried between DIFFERENT transformers): two projected systems with the same projection parameters on different built-in ellipsoids (or a UTM zone and a transverse Mercator on its central meridian), positions exactly on lat_0 / lat_1 / lat_2, the second system's three legs run alone and then in turn with the first one's on the same positions - judged by Spec and model, and compared bit for bit with the answers alone; plus `cc` lines (tmerc/lcc/aea/merc/longlat, fully specified, no datum shift: the definitions for which the unchanged tree is write-free per call under go -race): 8 goroutines share one transformer pair, every answer compared with the sequential one; plus `cp` lines (ill-conditioned cones, 60 parameterisations per quick run, 300 thorough, own RNG stream): aea/lcc/eqdc with standard parallels 0.001..0.5 degrees apart or within 1.001..1.5 degrees of symmetric about the equator (cone constant ~0.01), 16 positions incl. the pole-side border 89 degrees, both parallels and lat_0, rt and cl lines. distinct = distinct input line; non-trivial = every class",
     "timeout": {"quick": 900, "thorough": 3000},
     "trivial_class": r"^$",
 }
